@@ -14,7 +14,7 @@ import (
 
 func init() {
 	register("C19", propMeta{
-		Explanation:  "Decides codec agreement and value placement, not equality with a model: (R1) the node codec is symmetric and complete: the private structs in Node.MarshalJSON and Node.UnmarshalJSON declare the same fields, types and JSON tags, these cover every exported field of Node, every decoded field is copied back into the node, Item's JSON tags are unique and its only untagged field is the unexported fetch marker; (R2) decode failures on the read path are returned (shared with C10.R5); (R3) value placement follows the store options: commitTrackedItemsValues is a no-op exactly when values live in the node segment or are actively persisted; manage detaches an item's value (Value = nil, ValueNeedsFetch = true) only after that value was marshalled successfully into the blob it returns; (R4) the in-memory value of the current item is dropped (unfetchCurrentValue) only when it is known to be a copy fetched from the value store - the valueWasFetched marker, set only by the fetching read paths - because an added-then-updated value may exist inline only; (R5) a value read falls back to the blob store when the value cache misses or fails, returns the blob store's error, and assigns item.Value only after a successful decode. (R6) ValueNeedsFetch is cleared only behind a `Value != nil` test of the same item, after an assignment of its Value, or while removing the item.",
+		Explanation:  "Decides codec agreement and value placement, not equality with a model: (R1) the node codec is symmetric and complete: the private structs in Node.MarshalJSON and Node.UnmarshalJSON declare the same fields, types and JSON tags, these cover every exported field of Node, every decoded field is copied back into the node, Item's JSON tags are unique and its only untagged field is the unexported fetch marker; (R2) decode failures on the read path are returned (shared with C10.R5); (R3) value placement follows the store options: commitTrackedItemsValues is a no-op exactly when values live in the node segment or are actively persisted; manage detaches an item's value (Value = nil, ValueNeedsFetch = true) only after that value was marshalled successfully into the blob it returns; (R4) the in-memory value of the current item is dropped (unfetchCurrentValue) only when it is known to be a copy fetched from the value store - the valueWasFetched marker, set only by the fetching read paths - because an added-then-updated value may exist inline only; (R5) a value read falls back to the blob store when the value cache misses or fails, returns the blob store's error, and assigns item.Value only after a successful decode. (R6) ValueNeedsFetch is cleared only behind a `Value != nil` test of the same item, after an assignment of its Value, or while removing the item. (R7) the rollback list of tracked value blobs takes an item's current id before the id is reset to the tracked one.",
 		DoesNotCover: "Equality of contents with an in-memory model over operation sequences, restart behaviour and slot-length dependent restructuring are not decided.",
 	}, runC19)
 }
@@ -359,6 +359,8 @@ func runC19(c *Ctx) {
 		}
 		c.Check(nSites >= 6, r6, "ValueNeedsFetch = false sites inventoried", token.NoPos, fmt.Sprintf("%d sites", nSites), fmt.Sprintf("only %d sites found, expected at least 6", nSites), nil)
 	}
+	r7 := c.Rule("R7", "what a rollback deletes is what this transaction wrote: getForRollbackTrackedItemsValues puts an item's CURRENT id (the temporary one an update swapped in) on the list before it resets the id to the tracked (committed) one - the other order names the committed blob", 2)
+	rollbackListOrderRule(c, r7)
 	r5 := c.Rule("R5", "value reads fall back from the cache to the blob store and assign the value only after decoding", 3)
 	{
 		f := w.Fn("common.itemActionTracker.Get")
@@ -434,4 +436,59 @@ func ordinalOfWrite(w *World, f *Func, obj types.Object, ws WriteSite) int {
 		}
 	}
 	return n
+}
+
+// rollbackListOrderRule (C19.R7 = C07.R12).
+func rollbackListOrderRule(c *Ctx, r string) {
+	w := c.W
+	f := w.Fn("common.itemActionTracker.getForRollbackTrackedItemsValues")
+	g := w.G(f)
+	c.Analysed(f)
+	info := f.Pkg.TypesInfo
+	idF := w.Field("btree", "Item", "ID")
+	// the reset: X.item.ID = <range key>
+	var resets, appends []*GNode
+	for _, n := range g.Nodes {
+		as, ok := n.Ast.(*ast.AssignStmt)
+		if !ok {
+			continue
+		}
+		for i, l := range as.Lhs {
+			if fieldOfSelector(info, l) == idF && i < len(as.Rhs) {
+				resets = append(resets, n)
+			}
+		}
+		if len(as.Rhs) == 1 && w.mentionsCall(f, as.Rhs[0], "builtin.append") {
+			reads := false
+			ast.Inspect(as.Rhs[0], func(x ast.Node) bool {
+				if sx, ok := x.(ast.Expr); ok && fieldOfSelector(info, sx) == idF {
+					reads = true
+				}
+				return !reads
+			})
+			if reads {
+				appends = append(appends, n)
+			}
+		}
+	}
+	c.Check(len(appends) >= 1, r, "getForRollbackTrackedItemsValues: the item's id is put on the rollback list", f.Decl.Pos(), fmt.Sprintf("%d append(s) of item.ID", len(appends)), "no append of item.ID found", nil)
+	if len(resets) == 0 {
+		c.Held(r, "getForRollbackTrackedItemsValues: the id is listed before it is reset", f.Decl.Pos(), "the getter does not reset item ids")
+		return
+	}
+	r0 := g.Reach(idsOf(resets), func(n *GNode) bool { return n.RangeHead != nil }, nil)
+	var offs []Offence
+	for _, a := range appends {
+		isReset := false
+		for _, x := range resets {
+			if x == a {
+				isReset = true
+			}
+		}
+		if r0.Seen[a.ID] && !isReset {
+			offs = append(offs, Offence{a, r0.Path(a.ID)})
+		}
+	}
+	c.Offences(g, offs, r, "getForRollbackTrackedItemsValues: the id is listed before it is reset", f.Decl.Pos(), "append(item.ID) precedes item.ID = <tracked id> in every iteration",
+		"the item's id is reset to the tracked (committed) id before it is put on the list: for an updated item whose value lives in its own blob the rollback of a failed or abandoned transaction deletes the COMMITTED value blob and leaks the temporary one - the key stays in the tree but its value cannot be read any more")
 }
